@@ -723,6 +723,104 @@ def _lifecycle_checks(ctx, nl, seed_mul=53):
     return evals, hist['lenses'], wits, hist
 
 
+def _route_checks(ctx, nl, seed_mul=61, corpus_combos=None):
+    """the same prescription reached through other histories of public calls and other public routes
+    (c09lib.build_history): for an off-axis field the OPD the routed object reports is compared (a) with the oracle
+    (rays traced on the routed object, indices / exit pupil taken from the plainly built reference lens) and (b) with
+    the OPD of the plainly built lens (route independence).  A fixed corpus (c09lib.route_corpus) goes through EVERY
+    history x route on every run; seeded random lenses get random combinations.
+    Returns (evaluations, lenses, witnesses, histogram)"""
+    import random
+    import warnings
+    import numpy as np
+    import lensgen
+    import c09lib
+    warnings.simplefilter('ignore')
+    np.seterr(all='ignore')
+    from optiland.wavefront import Wavefront
+    rng = random.Random(ctx.seed * seed_mul + 9)
+    hist = {'corpus_lenses': 0, 'random_lenses': 0, 'histories': {}, 'routes': {}, 'combinations': 0, 'errors': {},
+            'prescription_problems': 0}
+    wits = []
+    evals = 0
+
+    def one(spec, combos, label):
+        nonlocal evals
+        try:
+            ref = c09lib.build(spec)
+            fields = [tuple(float(v) for v in H) for H in ref.fields.get_field_coords()]
+            fi = max(range(len(fields)), key=lambda k: abs(fields[k][1]))
+            H = fields[fi]
+            if H[1] == 0:
+                return False
+            w = float([w_ for w_, p_ in spec['wavelengths'] if p_][0] if rng.random() < 0.5 else rng.choice(spec['wavelengths'])[0])
+            dist = c09lib.make_distribution('hexapolar', 2)
+            wf0 = Wavefront(ref, [H], [w], len(dist.x), dist)
+            c0 = c09lib.case_from_data(spec, ref, H, w, dist, wf0.data[0][0][0], wf0.data[0][0][1], fidx=fi, dist_name='direct')
+            if not all(math.isfinite(v) for v in c0['chief'][-1][:6]) or c09lib.oracle_case(c0) is not None:
+                return False          # the plainly built lens is the business of the other checks
+        except Exception as e:   # noqa
+            hist['errors'][type(e).__name__] = hist['errors'].get(type(e).__name__, 0) + 1
+            return False
+        slack = c09lib.newton_slack(c0)
+        for history, route in combos:
+            hist['histories'][history] = hist['histories'].get(history, 0) + 1
+            hist['routes'][route] = hist['routes'].get(route, 0) + 1
+            hist['combinations'] += 1
+            try:
+                o = c09lib.build_history(spec, history, route, rng)
+                wf = Wavefront(o, [H], [w], len(dist.x), dist)
+                c = c09lib.case_from_data(spec, o, H, w, dist, wf.data[0][0][0], wf.data[0][0][1], fidx=fi,
+                                          dist_name=f'{history}/{route}')
+            except Exception as e:   # noqa
+                key = f'{history}/{route}:{type(e).__name__}'
+                hist['errors'][key] = hist['errors'].get(key, 0) + 1
+                wits.append({'spec': spec, 'lens': label, 'history': history, 'route': route, 'H': list(H), 'wavelength': w,
+                             'derived': f'a lens built through {history}/{route} cannot report its OPD: {type(e).__name__}: {str(e)[:120]}',
+                             'explained_by': None, 'violates_property': True})
+                continue
+            # indices and exit pupil from the reference lens (the prescription), rays from the object under test
+            c['surfs'], c['ps'], c['xpl'] = c0['surfs'], c0['ps'], c0['xpl']
+            evals += 1
+            w1 = c09lib.oracle_case(c)
+            dmax = max((abs(a - b) for a, b in zip(c['data'], c0['data']) if math.isfinite(a) and math.isfinite(b)), default=0.0)
+            nan_diff = any(math.isfinite(a) != math.isfinite(b) for a, b in zip(c['data'], c0['data']))
+            if w1 is not None or dmax > 1e-6 + slack or nan_diff:
+                pp = []
+                try:
+                    if not (spec.get('object_material') and spec['object_material'][0] != 'ideal'):
+                        pp = lensgen.prescription_problems(spec, o, w)
+                except Exception:   # noqa
+                    pp = []
+                hist['prescription_problems'] += int(bool(pp))
+                wit = w1 or {'spec': spec, 'H': list(H), 'wavelength': w, 'violates_property': True}
+                wit.update({'lens': label, 'history': history, 'route': route, 'explained_by': None,
+                            'field_type_of_object': str(getattr(o, 'field_type', None)), 'field_type_entered': spec['field_type'],
+                            'max_difference_from_plain_build_waves': dmax, 'prescription_problems': pp,
+                            'derived': f'the OPD reported by the same prescription built through {history}/{route} is not the path difference'})
+                wits.append(wit)
+        return True
+
+    allc = [(h, r) for h in c09lib.HISTORIES for r in c09lib.ROUTES]
+    for spec in c09lib.route_corpus():
+        if one(spec, corpus_combos or allc, spec['name']):
+            hist['corpus_lenses'] += 1
+    tries = 0
+    while hist['random_lenses'] < nl and tries < 6 * nl:
+        tries += 1
+        spec = c09lib.gen_spec(rng, exotic=False)
+        spec.pop('object_material', None)
+        if len(spec['fields']) < 2:
+            m = rng.uniform(2.0, 8.0)
+            spec['fields'] = [[0.0, 0.0, 0.0, 0.0], [m, 0.0, 0.0, 0.0]]
+        if rng.random() < 0.4:
+            lensgen.reorder_fields(spec, rng)
+        combos = rng.sample(allc, 3)
+        if one(spec, combos, 'random'):
+            hist['random_lenses'] += 1
+    return evals, hist['corpus_lenses'] + hist['random_lenses'], wits, hist
+
+
 def system_checks(ctx):
     import c09lib
     cases, hist = _cases(ctx, ctx.n(55, 700))
@@ -783,6 +881,18 @@ def system_checks(ctx):
         import traceback
         res4['error'] = traceback.format_exc()[-800:]
     yield res4
+    res5 = {'name': 'construction-routes-and-histories-vs-oracle', 'n': 0, 'nontrivial': 0, 'samples': [], 'disagreements': []}
+    try:
+        n5, l5, w5, h5 = _route_checks(ctx, ctx.n(6, 60))
+        res5.update(n=n5, nontrivial=l5, histogram=h5, disagreements=w5[:20])
+        res5['note'] = ('the same prescription through other public histories (fields before set_field_type, field type changed after the '
+                        'fields, settings repeated) and routes (ready-made Surface objects, reused Optic after reset(), to_dict/from_dict once and '
+                        'twice, save/load file): off-axis OPD against the oracle and against the plainly built lens; fixed corpus through every '
+                        'history x route, random lenses through random combinations')
+    except Exception as e:   # noqa
+        import traceback
+        res5['error'] = traceback.format_exc()[-800:]
+    yield res5
     res2 = {'name': 'derived-quantities-vs-implementation', 'n': 0, 'nontrivial': 0, 'samples': [], 'disagreements': []}
     try:
         n, lenses, bad = _derived_checks(ctx)
@@ -797,32 +907,38 @@ def system_checks(ctx):
 def search(ctx, broken, disagreements):
     """the property stated on the implementation: every reported sample equals the independently recomputed
     (chief path - ray path)/wavelength to the chief-ray reference sphere; the chief sample is zero; derived
-    quantities equal their definitions on NumPy data.  Seeded sweep over a fresh set of lenses."""
-    import numpy as np
+    quantities equal their definitions on NumPy data; the same holds for multi-wavelength calls, at any time of an
+    analysis object's life, and for the same prescription reached through other public histories / routes.
+    Returns a LIST of witnesses, those that match no open finding first."""
     import c09lib
+    import vlib
+    open_ids = {g['id'] for g in vlib.load_known_findings(PROP)}
+    unlisted, listed = [], []
+
+    def take(ws):
+        for w in ws:
+            ex = w.get('explained_by')
+            (listed if ex and set(ex) <= open_ids else unlisted).append(w)
     cases, hist = _cases(ctx, ctx.n(120, 1200), seed_mul=37, per_lens=2)
-    known = set(FINDING_IDS)
-    unlisted, listed = None, None
     for c in cases:
         w = c09lib.oracle_case(c)
-        if w is None:
-            continue
-        if w['explained_by'] and set(w['explained_by']) <= known:
-            listed = listed or w
-        else:
-            unlisted = w
+        if w is not None:
+            take([w])
+            if len(unlisted) >= 2:
+                break
+    for fn, n, sm in ((_route_checks, ctx.n(8, 60), 67), (_multi_checks, ctx.n(15, 120), 47), (_lifecycle_checks, ctx.n(10, 80), 59)):
+        if len(unlisted) >= 3:
             break
-    if unlisted is None:
-        _, _, wits, _ = _multi_checks(ctx, ctx.n(15, 120), seed_mul=47)
-        if wits:
-            unlisted = wits[0]
-    if unlisted is None:
-        _, _, wits, _ = _lifecycle_checks(ctx, ctx.n(10, 80), seed_mul=59)
-        if wits:
-            unlisted = wits[0]
-    if unlisted is None:
-        unlisted = _derived_oracle(ctx)
-    return unlisted or listed
+        try:
+            take(fn(ctx, n, seed_mul=sm)[2][:3])
+        except Exception as e:   # noqa
+            ctx.notes.append(f'search: {fn.__name__} raised {type(e).__name__}: {e}')
+    if not unlisted:
+        w = _derived_oracle(ctx)
+        if w:
+            take([w])
+    out = unlisted[:5] + listed[:3]
+    return out or None
 
 
 def _derived_oracle(ctx):
